@@ -38,6 +38,59 @@ func callersTable(c *Ctx, rule string, target *ssa.Function, allowed []string) {
 	}
 }
 
+// purgeObligation: in ApplyAndReturnValidatorSetUpdates every visited record with
+// power <= 0 is removed in this call: immediately, or through the removal pass
+// over the last-power set it belongs to.  (C13.R5; C14.R6 relies on the same
+// obligation for the records ChangeExecutor zeroes.)
+func purgeObligation(c *Ctx, rule, key string) {
+	fn := c.Method(childKeeper, "Keeper", "ApplyAndReturnValidatorSetUpdates")
+	o5 := c.Ob(rule, key)
+	allV := "(opchild/keeper.Keeper).GetAllValidators(k, ctx).0"
+	lastM := "(opchild/keeper.Keeper).getLastValidatorsByAddr(k, ctx).0"
+	for _, p := range c.Paths(fn, applyPO) {
+		o5.Paths++
+		o5.Facts += p.NFacts()
+		// R5: per visited record with power <= 0
+		for i := range p.Events {
+			ev := &p.Events[i]
+			if ev.Kind != EvFact {
+				continue
+			}
+			rf, ok := factRel(ev.Cond, ev.Pol)
+			if !ok {
+				continue
+			}
+			var v *Term
+			var rel uint8
+			if strings.HasSuffix(rf.Y.Key(), ".ConsPower") && rf.X.Key() == "0" && strings.HasPrefix(rf.Y.Key(), allV+"[") {
+				v, rel = rf.Y.Args[0], flipRel(rf.Rel)
+			} else if strings.HasSuffix(rf.X.Key(), ".ConsPower") && rf.Y.Key() == "0" && strings.HasPrefix(rf.X.Key(), allV+"[") {
+				v, rel = rf.X.Args[0], rf.Rel
+			}
+			if v == nil || rel&rGT != 0 {
+				continue
+			}
+			// power <= 0 for record v
+			o5.Sites++
+			if p.Panic {
+				continue
+			}
+			inLast := p.HasFact(len(p.Events), func(a *Term, pol bool) bool {
+				return pol && a.Op == "extract" && a.Name == "1" && a.Args[0].Op == "lookup" && a.Args[0].Args[0].Key() == lastM && a.Args[0].Args[1].Key() == v.Key()+".OperatorAddress"
+			})
+			removed := len(p.Find(func(e2 *Event) bool {
+				return e2.Kind == EvCall && strings.HasSuffix(e2.Call.Name, "Keeper).RemoveValidator") && e2.Call.Args[2].Key() == opAddrKey(v)
+			})) > 0
+			if p.OK() && !inLast && !removed {
+				o5.Fail(c.evPos(ev), "a stored validator with power <= 0 that was never bonded (not in the last-power set) is skipped and never purged: its operator address and consensus key stay occupied", c.Dump(p, -1))
+			}
+		}
+	}
+	if o5.Sites == 0 {
+		o5.Fail(c.W.Pos(fn.Pos()), "no record with power <= 0 visited on any path (floor 1)", nil)
+	}
+}
+
 func propC13(c *Ctx) {
 	c.Clauses = append(c.Clauses,
 		"writers of Validators / ValidatorsByConsAddr / LastValidatorPowers are exactly the tabled helpers",
@@ -112,7 +165,9 @@ func propC13(c *Ctx) {
 				if p.Panic || !p.OK() {
 					continue
 				}
-				for _, i := range p.Find(func(ev *Event) bool { return ev.Kind == EvCall && isCall(ev, "Keeper).SetValidator(") || ev.Kind == EvCall && strings.HasSuffix(ev.Call.Name, "Keeper).SetValidator") }) {
+				for _, i := range p.Find(func(ev *Event) bool {
+					return ev.Kind == EvCall && isCall(ev, "Keeper).SetValidator(") || ev.Kind == EvCall && strings.HasSuffix(ev.Call.Name, "Keeper).SetValidator")
+				}) {
 					o.Sites++
 					v := p.Events[i].Call.Args[2]
 					// same record with only ConsPower changed: no index change required
@@ -170,7 +225,9 @@ func propC13(c *Ctx) {
 		for _, p := range c.Paths(fn, po) {
 			o.Paths++
 			o.Facts += p.NFacts()
-			for _, i := range p.Find(func(ev *Event) bool { return ev.Kind == EvCall && strings.HasSuffix(ev.Call.Name, "Keeper).SetValidator") }) {
+			for _, i := range p.Find(func(ev *Event) bool {
+				return ev.Kind == EvCall && strings.HasSuffix(ev.Call.Name, "Keeper).SetValidator")
+			}) {
 				o.Sites++
 				where := c.evPos(&p.Events[i])
 				v := p.Events[i].Call.Args[2]
@@ -226,7 +283,9 @@ func propC13(c *Ctx) {
 		for _, p := range c.Paths(fn, po) {
 			o.Paths++
 			o.Facts += p.NFacts()
-			for _, i := range p.Find(func(ev *Event) bool { return ev.Kind == EvCall && strings.HasSuffix(ev.Call.Name, "Keeper).SetValidator") }) {
+			for _, i := range p.Find(func(ev *Event) bool {
+				return ev.Kind == EvCall && strings.HasSuffix(ev.Call.Name, "Keeper).SetValidator")
+			}) {
 				o.Sites++
 				ev := &p.Events[i]
 				v := ev.Call.Args[2]
@@ -259,50 +318,13 @@ func propC13(c *Ctx) {
 	c.Rule("C13.R4", func() {
 		fn := c.Method(childKeeper, "Keeper", "ApplyAndReturnValidatorSetUpdates")
 		o := c.Ob("C13.R4", "ApplyAndReturnValidatorSetUpdates: every update told to consensus is recorded (and vice versa)")
-		o5 := c.Ob("C13.R5", "ApplyAndReturnValidatorSetUpdates: a record with power <= 0 is purged now or is in the last-power set")
+		purgeObligation(c, "C13.R5", "ApplyAndReturnValidatorSetUpdates: a record with power <= 0 is purged now or is in the last-power set")
 		allV := "(opchild/keeper.Keeper).GetAllValidators(k, ctx).0"
 		lastM := "(opchild/keeper.Keeper).getLastValidatorsByAddr(k, ctx).0"
 		nOK := 0
 		for _, p := range c.Paths(fn, applyPO) {
 			o.Paths++
-			o5.Paths++
 			o.Facts += p.NFacts()
-			o5.Facts += p.NFacts()
-			// R5: per visited record with power <= 0
-			for i := range p.Events {
-				ev := &p.Events[i]
-				if ev.Kind != EvFact {
-					continue
-				}
-				rf, ok := factRel(ev.Cond, ev.Pol)
-				if !ok {
-					continue
-				}
-				var v *Term
-				var rel uint8
-				if strings.HasSuffix(rf.Y.Key(), ".ConsPower") && rf.X.Key() == "0" && strings.HasPrefix(rf.Y.Key(), allV+"[") {
-					v, rel = rf.Y.Args[0], flipRel(rf.Rel)
-				} else if strings.HasSuffix(rf.X.Key(), ".ConsPower") && rf.Y.Key() == "0" && strings.HasPrefix(rf.X.Key(), allV+"[") {
-					v, rel = rf.X.Args[0], rf.Rel
-				}
-				if v == nil || rel&rGT != 0 {
-					continue
-				}
-				// power <= 0 for record v
-				o5.Sites++
-				if p.Panic {
-					continue
-				}
-				inLast := p.HasFact(len(p.Events), func(a *Term, pol bool) bool {
-					return pol && a.Op == "extract" && a.Name == "1" && a.Args[0].Op == "lookup" && a.Args[0].Args[0].Key() == lastM && a.Args[0].Args[1].Key() == v.Key()+".OperatorAddress"
-				})
-				removed := len(p.Find(func(e2 *Event) bool {
-					return e2.Kind == EvCall && strings.HasSuffix(e2.Call.Name, "Keeper).RemoveValidator") && e2.Call.Args[2].Key() == opAddrKey(v)
-				})) > 0
-				if p.OK() && !inLast && !removed {
-					o5.Fail(c.evPos(ev), "a stored validator with power <= 0 that was never bonded (not in the last-power set) is skipped and never purged: its operator address and consensus key stay occupied", c.Dump(p, -1))
-				}
-			}
 			if !p.OK() || p.Panic {
 				continue
 			}
@@ -443,9 +465,6 @@ func propC13(c *Ctx) {
 		if nOK == 0 {
 			o.Fail(c.W.Pos(fn.Pos()), "no success path", nil)
 		}
-		if o5.Sites == 0 {
-			o5.Fail(c.W.Pos(fn.Pos()), "no path visits a record with power <= 0 (floor)", nil)
-		}
 	})
 
 	c.Rule("C13.R6", func() {
@@ -509,8 +528,12 @@ func propC13(c *Ctx) {
 			}
 			exported := p.HasFact(len(p.Events), func(a *Term, pol bool) bool { return pol && a.Key() == "data.Exported" })
 			notExp := p.HasFact(len(p.Events), func(a *Term, pol bool) bool { return !pol && a.Key() == "data.Exported" })
-			diff := p.Find(func(ev *Event) bool { return ev.Kind == EvCall && strings.HasSuffix(ev.Call.Name, "ApplyAndReturnValidatorSetUpdates") })
-			sets := p.Find(func(ev *Event) bool { return ev.Kind == EvCall && strings.HasSuffix(ev.Call.Name, "Keeper).SetLastValidatorPower") })
+			diff := p.Find(func(ev *Event) bool {
+				return ev.Kind == EvCall && strings.HasSuffix(ev.Call.Name, "ApplyAndReturnValidatorSetUpdates")
+			})
+			sets := p.Find(func(ev *Event) bool {
+				return ev.Kind == EvCall && strings.HasSuffix(ev.Call.Name, "Keeper).SetLastValidatorPower")
+			})
 			if exported {
 				nExp++
 				if len(diff) != 0 {
@@ -666,7 +689,9 @@ func propC14(c *Ctx) {
 		// the map has no other writer
 		eff := c.W.BuildEffects()
 		o2 := c.Ob("C14.R1", "ExecutorChangePlans is written only by RegisterExecutorChangePlan (and created in NewKeeper)")
-		for _, s := range eff.Where(func(s *Site) bool { return (s.Kind == SMapSet || s.Kind == SMapDel) && s.Field == "ExecutorChangePlans" }) {
+		for _, s := range eff.Where(func(s *Site) bool {
+			return (s.Kind == SMapSet || s.Kind == SMapDel) && s.Field == "ExecutorChangePlans"
+		}) {
 			o2.Sites++
 			if fnShort(s.Root()) != "(opchild/keeper.Keeper).RegisterExecutorChangePlan" {
 				o2.Fail(c.W.Pos(s.Pos), string(s.Kind)+" in "+fnShort(s.Root()), nil)
@@ -684,8 +709,12 @@ func propC14(c *Ctx) {
 		for _, p := range c.Paths(fn, PO{Params: []string{"ctx", "k"}, NoInline: []string{"ChangeExecutor", "BlockValidatorUpdates"}}) {
 			o.Paths++
 			o.Facts += p.NFacts()
-			ce := p.Find(func(ev *Event) bool { return ev.Kind == EvCall && strings.HasSuffix(ev.Call.Name, "Keeper).ChangeExecutor") })
-			bv := p.Find(func(ev *Event) bool { return ev.Kind == EvCall && strings.HasSuffix(ev.Call.Name, "Keeper).BlockValidatorUpdates") })
+			ce := p.Find(func(ev *Event) bool {
+				return ev.Kind == EvCall && strings.HasSuffix(ev.Call.Name, "Keeper).ChangeExecutor")
+			})
+			bv := p.Find(func(ev *Event) bool {
+				return ev.Kind == EvCall && strings.HasSuffix(ev.Call.Name, "Keeper).BlockValidatorUpdates")
+			})
 			for _, i := range ce {
 				nPlan++
 				o.Sites++
@@ -754,8 +783,12 @@ func propC14(c *Ctx) {
 			}
 			nOK++
 			walk := collEvents(p, len(p.Events), "Validators", "Walk")
-			sv := p.Find(func(ev *Event) bool { return ev.Kind == EvCall && strings.HasSuffix(ev.Call.Name, "Keeper).SetValidator") })
-			sc := p.Find(func(ev *Event) bool { return ev.Kind == EvCall && strings.HasSuffix(ev.Call.Name, "Keeper).SetValidatorByConsAddr") })
+			sv := p.Find(func(ev *Event) bool {
+				return ev.Kind == EvCall && strings.HasSuffix(ev.Call.Name, "Keeper).SetValidator")
+			})
+			sc := p.Find(func(ev *Event) bool {
+				return ev.Kind == EvCall && strings.HasSuffix(ev.Call.Name, "Keeper).SetValidatorByConsAddr")
+			})
 			if len(walk) != 1 || p.Events[walk[0]].Call.Args[2].Key() != "nil" {
 				o.Fail(c.W.Pos(fn.Pos()), "success without one full-range walk over Validators", c.Dump(p, -1))
 			}
@@ -812,6 +845,12 @@ func propC14(c *Ctx) {
 		}
 	})
 
+	c.Rule("C14.R6", func() {
+		// the records ChangeExecutor zeroes must be gone from state by the end of block h:
+		// that is the purge obligation of the diff that runs right after it in EndBlocker
+		purgeObligation(c, "C14.R6", "every record zeroed by ChangeExecutor is purged by the validator diff of the same EndBlocker (bonded or never bonded): state ends with the plan validator only")
+	})
+
 	c.Rule("C14.R5", func() {
 		fn := c.Method(childKeeper, "Keeper", "ChangeExecutor")
 		oa := c.Ob("C14.R5", "ChangeExecutor: plan validator insertion excludes or handles an existing operator address")
@@ -821,7 +860,9 @@ func propC14(c *Ctx) {
 			oa.Paths++
 			ob.Paths++
 			oa.Facts += p.NFacts()
-			for _, i := range p.Find(func(ev *Event) bool { return ev.Kind == EvCall && strings.HasSuffix(ev.Call.Name, "Keeper).SetValidator") }) {
+			for _, i := range p.Find(func(ev *Event) bool {
+				return ev.Kind == EvCall && strings.HasSuffix(ev.Call.Name, "Keeper).SetValidator")
+			}) {
 				oa.Sites++
 				ob.Sites++
 				opChecked := len(p.Find(func(e2 *Event) bool {
